@@ -174,13 +174,28 @@ def undeclared_key_reading_rule(cx, rep, rid):
     F = cx.rs
     trees = _core_trees(F)
     n = 0
+    # the projections behind T[K] / keyof read an index signature's value type as it is (Record<string, V>[k] is V):
+    # functions that return a semantic type and are reachable from a function that reads one structural family of an
+    # operand (`sub_type_data(.., SubTypeTag::X)`) are not emptiness code
+    roots = {g for g, t in trees.items() if any(x["k"] in ("Call", "MethodCall") and (x.get("callee") or "").endswith("sub_type_data") for x in walk(t["body"]))
+             and "SemType" in (F.fns[g].output or "") and "bool" not in (F.fns[g].output or "")}
+    projection_code = set(roots)
+    work = list(roots)
+    while work:
+        g0 = work.pop()
+        for x in walk(trees[g0]["body"]):
+            if x["k"] in ("Call", "MethodCall"):
+                tg = _callee_gid(F, x)
+                if tg in trees and tg not in projection_code and "SemType" in (F.fns[tg].output or "") and "bool" not in (F.fns[tg].output or ""):
+                    projection_code.add(tg)
+                    work.append(tg)
 
     def is_idx_field(x, name):
         return x["k"] == "Field" and x["name"] == name and (x.get("adt") or "").endswith("IndexedPropertiesAtomic")
     for g in sorted(trees):
         t = trees[g]
         f = F.fns[g]
-        if "/src/subtyping/" not in (f.file or ""):
+        if "/src/subtyping/" not in (f.file or "") or g in projection_code:
             continue
         parents = {}
         for x in walk(t["body"]):
@@ -564,9 +579,14 @@ def positive_argument_rule(cx, rep, rid):
     trees = _core_trees(F)
     import re as _re
 
+    def base(ty):
+        ty = (ty or "").replace("&", "").replace("mut ", "").strip()
+        m = _re.match(r"^std::rc::Rc<([\w:]+)>$", ty)
+        return m.group(1) if m else ty
+
     def elem_of_list(ty):
-        m = _re.search(r"(?:Vec<|\[)\s*(std::rc::Rc<[\w:]+>)", (ty or "").replace("&", ""))
-        return m.group(1) if m else None
+        m = _re.search(r"(?:Vec<|\[)\s*((?:std::rc::Rc<)?[\w:]+>?)", (ty or "").replace("&", ""))
+        return base(m.group(1)) if m else None
     procs = {}
     for g, t in trees.items():
         f = F.fns[g]
@@ -579,7 +599,7 @@ def positive_argument_rule(cx, rep, rid):
         for i_, ty in enumerate(ptys):
             el = elem_of_list(ty)
             if el and "Atomic" in el:
-                singles = [j for j, t2 in enumerate(ptys) if j != i_ and (t2 or "").replace("&", "").strip() == el]
+                singles = [j for j, t2 in enumerate(ptys) if j != i_ and base(t2) == el]
                 if singles:
                     procs[g] = (singles[0], i_, el)
     rep.floor(rid, "emptiness procedures (one atomic positive against a list of atomic negatives)", len(procs), 1)
@@ -599,10 +619,34 @@ def positive_argument_rule(cx, rep, rid):
             if pos_i >= len(args):
                 continue
             n += 1
-            from_list = [y for y in C.nodes(args[pos_i]) if y["k"] == "Path" and y.get("res") == "local" and elem_of_list(y.get("ty")) == el]
+            # the positive IS an element of a list (through aliases: `&`, `*`, clone, immutable lets, match / loop
+            # bindings) - a value merely computed with the help of a negative (the fragment of the recursion) is not
+            def roots(e, depth=0, seen=None):
+                seen = seen if seen is not None else set()
+                while e["k"] in ("AddrOf", "Unary", "DropTemps", "Paren") or (e["k"] == "MethodCall" and e.get("method") in ("clone", "as_ref", "deref", "borrow", "to_owned")):
+                    e = e["recv"] if e["k"] == "MethodCall" else e["e"]
+                if e["k"] == "Path" and e.get("res") == "local" and e.get("lid") in C.src and e["lid"] not in seen and depth < 8:
+                    seen.add(e["lid"])
+                    out = []
+                    for src_ in C.src[e["lid"]]:
+                        out += roots(src_, depth + 1, seen)
+                    return out
+                return [e]
+
+            def is_elem(e):
+                if e["k"] == "Index":
+                    return any(y["k"] == "Path" and elem_of_list(y.get("ty")) == el for y in walk(e.get("base") or e.get("e") or e))
+                if e["k"] == "MethodCall" and e.get("method") in ("get", "first", "last", "split_first", "split_last", "next", "iter", "into_iter", "pop", "remove", "swap_remove", "get_unchecked"):
+                    return any(y["k"] == "Path" and elem_of_list(y.get("ty")) == el for y in walk(e["recv"]))
+                if e["k"] == "Call" and ("into_iter" in (e.get("callee") or "") or "Iterator::next" in (e.get("callee") or "")):
+                    return any(y["k"] == "Path" and elem_of_list(y.get("ty")) == el for y in C.nodes(e))
+                if e["k"] == "Path" and e.get("res") == "local":
+                    return elem_of_list(e.get("ty")) == el
+                return False
+            from_list = [y for y in roots(args[pos_i]) if is_elem(y)]
             rep.ob(rid, "%s->%s/positive-is-not-a-negative" % (g.rsplit("::", 1)[-1], tg.rsplit("::", 1)[-1]), not from_list,
                    "%s calls %s with a positive that is taken out of a LIST of atomic types (`%s`, line %s): the procedure reads its positive exactly and its negatives structurally, so using it to compare two negatives decides `exact(Ni) <= open(Nj)` - `{a: number}` counts as covered by `Record<string, number>` and is pruned, after which `{a: number, b: string} extends {a: number} | Record<string, number>` is answered no"
-                   % (g, tg.rsplit("::", 1)[-1], from_list[0].get("name") if from_list else "", x["line"]), "%s:%s" % (f.file, x["line"]), sample={"caller": g, "procedure": tg})
+                   % (g, tg.rsplit("::", 1)[-1], (from_list[0].get("name") or from_list[0].get("method") or from_list[0]["k"]) if from_list else "", x["line"]), "%s:%s" % (f.file, x["line"]), sample={"caller": g, "procedure": tg})
     rep.floor(rid, "calls of an emptiness procedure", n, 1)
 
 
@@ -745,7 +789,7 @@ def own_only_read_rule(cx, rep, rid):
                     rep.ob(rid, "%s.%s/%s" % (cname, mname, _ident(call["callee"])), a0 not in names,
                            "%s.%s reads a property of the INPUT through the own-only getter %s: every other validator reads declared properties with `input[k]` (inherited included), so the same type written with a merged tag (`{type: \"a\" | \"b\"; ..}`) accepts a class instance / Object.create value whose tag is inherited while the discriminated-union spelling rejects it - a meaning-preserving rewrite changes the validator"
                            % (cname, mname, _ident(call["callee"])), mod.loc(call), sample={"class": cname, "method": mname, "getter": _ident(call["callee"]), "first_argument": ts_s(call["arguments"][0]["expression"])})
-    rep.floor(rid, "own-only getter calls in methods that hold the input", n, 2)
+    rep.floor(rid, "own-only getter calls in methods that hold the input (a private helper that is handed something else does not count)", n, 1)
 
 
 def _prim_test(e, name, pol=True):
@@ -1170,19 +1214,36 @@ def synthetic_name_digest_rule(cx, rep, rid):
                 if d["type"] != "VariableDeclarator" or d.get("init") is None or not _ident(d["id"]):
                     continue
                 init = unparen(d["init"])
-                if init.get("type") != "CallExpression":
-                    continue
-                cal = unparen(init["callee"])
-                if cal.get("type") != "MemberExpression" or cal["property"].get("type") != "Identifier" or cal["property"]["value"] not in meths:
-                    continue
-                if not (cal["object"].get("type") == "ThisExpression" or _ident(cal["object"]) == cname):
+                # the name is built by a method of the class, by a module function, or in place (template / concatenation)
+                builder = None
+                parts = []
+                if init.get("type") == "CallExpression":
+                    cal = unparen(init["callee"])
+                    if cal.get("type") == "MemberExpression" and cal["property"].get("type") == "Identifier" and cal["property"]["value"] in meths \
+                            and (cal["object"].get("type") == "ThisExpression" or _ident(cal["object"]) == cname):
+                        builder = cal["property"]["value"]
+                    elif _ident(cal) in _module_fns(mod):
+                        builder = _ident(cal)
+                    parts = [a["expression"] for a in init["arguments"]]
+                elif init.get("type") == "TemplateLiteral" and init["expressions"]:
+                    builder = "<template>"
+                    parts = list(init["expressions"])
+                elif init.get("type") == "BinaryExpression" and init["operator"] == "+":
+                    builder = "<concatenation>"
+                    parts = [init]
+                if builder is None:
                     continue
                 x = _ident(d["id"])
                 uses = [u for u in twalk(fn) if u["type"] == "CallExpression" and any(_ident(a["expression"]) == x for a in u["arguments"])]
-                if not any(ts_s(u["callee"]).endswith(".getRef") for u in uses) or len(uses) < 2:
+                direct = any(ts_s(u["callee"]).endswith(".getRef") for u in uses) and len(uses) >= 2
+                # or the name leaves the method inside a record / as the result and is given to getRef by another method
+                # of the class (b77: `return { name: syntheticRefName, target }` .. `getRef(definition.name)`)
+                escapes = any((o["type"] == "ObjectExpression" and any((pr["type"] == "KeyValueProperty" and _ident(unparen(pr["value"])) == x) or (pr["type"] == "Identifier" and pr["value"] == x) for pr in o["properties"]))
+                              or (o["type"] == "ReturnStatement" and _ident(o.get("argument")) == x) for o in twalk(fn))
+                class_refs = any(u["type"] == "CallExpression" and ts_s(u["callee"]).endswith(".getRef") for f2 in meths.values() for u in twalk(f2))
+                if not direct and not (escapes and class_refs and builder not in ("<concatenation>",) and init.get("type") == "CallExpression"):
                     continue
                 # the name X is made by `builder` and used for a $ref and for the definition protocol
-                builder = cal["property"]["value"]
                 n += 1
                 weak = []
 
@@ -1211,9 +1272,9 @@ def synthetic_name_digest_rule(cx, rep, rid):
                                         cc = unparen(call["callee"])
                                         if cc.get("type") == "MemberExpression" and cc["property"].get("value") == owner_name and pi < len(call["arguments"]):
                                             origin(call["arguments"][pi]["expression"], on, of, depth + 1)
-                for a in init["arguments"]:
-                    origin(a["expression"], mname, fn)
-                rep.ob(rid, "%s.%s/digest" % (cname, builder), not weak,
+                for a in parts:
+                    origin(a, mname, fn)
+                rep.ob(rid, "%s/made-up-name-digest" % cname, not weak,
                        "the definition name built by %s.%s (used for the $ref and for the stored definition in %s.%s) derives from the 32-bit structural hash (%s): two different structures with the same 32-bit value - `{kind: \"on\", value: true} | {kind: \"off\"}` and `{kind: \"on\", value: \"true\"} | {kind: \"off\"}`, hash() of `true` and of `\"true\"` coincide - share their synthetic definitions inside one printing context: the union printed first decides the body, the exported definitions depend on the call order and the other union's schema admits what its validator rejects"
                        % (cname, builder, cname, mname, "; ".join(sorted({w[1] for w in weak}))), mod.loc(d), sample={"class": cname, "builder": builder, "weak_digests": sorted({w[1] for w in weak})})
     rep.floor(rid, "made-up definition names (built by a method, used for $ref and for the definition protocol)", n, 1)
